@@ -39,7 +39,8 @@ def render_line(ln, rng, last=False):
     elif k == 'blank':
         s = rng.choice(['', '   ', '\t'])
     elif k == 'pre':
-        s = ' '.join(ln['t'])
+        # directives inside #ifdef blocks are often indented in hand-written topologies
+        s = (rng.choice(['  ', '\t', '    ']) if ln.get('indent') else '') + ' '.join(ln['t'])
     elif k == 'comm':
         s = rng.choice([';', '; ', ' ; ']) + ' ; '.join(' '.join(c) for c in ln['c'])
     else:
@@ -86,7 +87,10 @@ def observe(itp):
         for ln in sec.lines:
             content = ln.content
             comment = ln.comment
-            if content:
+            if content.startswith('#'):
+                # an indented directive: the library keeps it verbatim as a content line; it is a directive
+                its.append({'k': 'pre', 't': content.split(), 'c': []})
+            elif content:
                 its.append({'k': 'cont', 't': content.split(), 'c': comment.split()})
             elif ln.line.startswith('#'):
                 its.append({'k': 'pre', 't': comment.split(), 'c': []})
@@ -222,7 +226,11 @@ def random_generic_file(rng):
     order = [rng.choice(names) for _ in range(rng.randint(1, 7))]      # repeats happen
     for nm in order:
         f.append({'k': 'sec', 't': [nm], 'c': []})
-        f += random_lines(rng, rng.randint(0, 6))
+        lines = random_lines(rng, rng.randint(0, 6))
+        for ln in lines:
+            if ln['k'] == 'pre' and rng.random() < 0.4:
+                ln['indent'] = True
+        f += lines
     return f
 
 
@@ -400,7 +408,7 @@ def check(run, props):
         for j in range(150 if run.quick else 3000):
             tid += 1
             items.append((tid, 'generic', run.seed * 1000003 + j))
-    ntopo = (100 if run.quick else 3000)
+    ntopo = (300 if run.quick else 3000)
     for j in range(ntopo):
         tid += 1
         items.append((tid, 'topo', run.seed * 1000003 + 7 * j + 1))
